@@ -284,6 +284,8 @@ func frames() {
 }
 
 func init() {
+	reg.Register(&reg.Scenario{Property: "C04", Name: "backlog-behind-busy-object", Body: fx.Backlog(12), Quick: 1, Thorough: 2,
+		Doc: "an object busy in a gated call; one connection pipelines terminate() + 12 calls (more than its mailbox holds), a second connection one more; then the gate opens"})
 	reg.Register(&reg.Scenario{Property: "C04", Name: "two-callers-statement-level", Body: callers(2, true), Quick: 2, Thorough: 3,
 		Doc: "as two-callers with bus/client.go interleaved at statement level (unsynchronised client state)", MustFlag: []string{"replies-crossed"}})
 	reg.Register(&reg.Scenario{Property: "C04", Name: "two-callers", Body: callers(2, false), Quick: 2, Thorough: 3,
